@@ -1188,3 +1188,14 @@ Theorem with_center_spec_fits d c :
      0 <= px (tl (image_box i)) + px br - 2 * px c <= 1 /\
      0 <= py (tl (image_box i)) + py br - 2 * py c <= 1).
 Proof. intros Hw Hh _. apply with_center_spec; assumption. Qed.
+
+(* ---- ImageRaw::new_const ---------------------------------------------------------------------------- *)
+Theorem new_const_spec bpp alt data s :
+  (Z.of_nat (length data) = bytes_per_row (sw s) bpp * sh s ->
+     raw_new_const bpp alt data s = Some (IR data s bpp alt) /\ raw_new bpp alt data s = inl (IR data s bpp alt)) /\
+  (Z.of_nat (length data) <> bytes_per_row (sw s) bpp * sh s ->
+     raw_new_const bpp alt data s = None /\ raw_new bpp alt data s = inr (bytes_per_row (sw s) bpp * sh s)).
+Proof.
+  unfold raw_new_const, raw_new. destruct (Z.of_nat (length data) =? _) eqn:E; cbn [negb]; split; intros H;
+    try (exfalso; lia); split; reflexivity.
+Qed.
